@@ -16,7 +16,7 @@ from .refcodec import int_range, trees_equal
 TD64_MIN = -86399999913600000  # timedelta.min in ms
 TD64_MAX = 86399999913599999  # (timedelta.max - 1 day) in ms, kio's documented upper limit
 DT_MAX = 253402300799999  # 9999-12-31T23:59:59.999Z in ms
-STR_LENGTHS_SMALL = (0, 1, 2, 5, 126, 127, 128)
+STR_LENGTHS_SMALL = (0, 1, 2, 5, 126, 127, 128, 254, 255, 256)
 STR_LENGTHS_BIG = (16383, 16384, 32767)  # 32767 = the most a legacy (int16-length) string can hold
 BYTES_LENGTHS_HUGE = (65537, 1048577, 2097152)  # beyond typical chunking thresholds (64 KiB, 1 MiB); 2^21: the compact length needs a 4-byte varint
 BIG_LABELS = tuple(f"len{n}" for n in STR_LENGTHS_BIG + BYTES_LENGTHS_HUGE)
@@ -51,10 +51,19 @@ def set_error_codes(codes: list[int]) -> None:
 def utf8_of_length(rng: random.Random, n: int) -> str:
     """A string whose UTF-8 encoding is exactly n bytes, mixing 1-4 byte characters."""
     if n > 512:
+        if rng.random() < 0.3:
+            return "topic-" + "a" * (n - 6)  # pure ASCII
         # cheap construction for big strings: a multi-byte body and ASCII padding
         body = "€" * ((n - rng.randrange(0, 3)) // 3)
         used = len(body.encode())
         return body + "x" * (n - used)
+    r = rng.random()
+    if r < 0.25:
+        # one content class only: all ASCII (what topic names, group ids and host names are), all two-, three- or four-byte characters
+        return "".join(rng.choice("abcdefghijklmnopqrstuvwxyzABCXYZ-_.0123456789") for _ in range(n))
+    if r < 0.32:
+        width, ch = rng.choice(((2, "é"), (3, "€"), (4, "😀")))
+        return ch * (n // width) + "x" * (n % width)
     out = []
     left = n
     lead = ""
